@@ -97,7 +97,7 @@ def run(ctx: Context) -> None:
             tdefs = [x for x in own_nodes(tf.node) if isinstance(x, ast.Assign) and norm(x.targets[0]) == "target"]
             tgts = {norm(x.value) for x in tdefs} | {"b'%b:%d'%(self._remote_origin.host,self._remote_origin.port)"}
             tev_ok, tev_detail, _ = connect_target_eval(ctx, tf)
-            ok = kw.get("method") == ["b'CONNECT'"] and "content" not in kw and tev_ok
+            ok = kw.get("method") == ["b'CONNECT'"] and kw.get("content", ["None"]) == ["None"] and tev_ok
             url = kw.get("url", ["?"])[0]
             ok = ok and any(f"target={tgt}" in url for tgt in tgts) and "self._proxy_origin.scheme" in url
             ok = ok and any(kw.get("headers") == [f"merge_headers([(b'Host',{tgt}),(b'Accept',b'*/*')],self._proxy_headers)"] for tgt in tgts)
